@@ -323,8 +323,9 @@ NP_GROUPS = [
     ("0100000002000000", [2], ["<i4", ">i4", "<u4", "<f4", ">u4"]),
     ("0100000002000000", [1], [[["a", "<i4"], ["b", "<i4"]], [["a", "<i4"], ["b", "<f4"]], [["x", "<i4"], ["b", "<i4"]],
                                [["a", "<i4", [2]]], [["a", ">i4"], ["b", "<i4"]], [["a", "<i2"], ["p", "<i2"], ["b", "<i4"]],
-                               {"names": ["a", "b"], "formats": ["<i2", "<i4"], "offsets": [0, 4], "itemsize": 8},
-                               {"names": ["a", "b"], "formats": ["<i2", "<i4"], "offsets": [2, 4], "itemsize": 8}]),
+                               [["p", "<i2"], ["a", "<i2"], ["b", "<i4"]], [["a", "<i2", [2]], ["b", "<i4"]]]),
+    # (dtypes with unnamed padding are left out: joblib hashes the raw memory including the padding bytes, whose
+    #  content numpy does not define)
     ("0100000000000000", [1], ["<i8", "<M8[s]", "<M8[ms]", "<m8[s]", "<m8[ms]", "<u8", "<f8", ">i8"]),
     ("01000000", [1], ["S4", "<U1", "<i4", "V4", ">i4"]),
     ("0100010000010101", [8], ["?", "u1", "i1", "S1"]),
@@ -372,7 +373,9 @@ def gen_codeless_scenario(rng, sid):
     for k in range(1, nver + 1):
         v = {"tag": "v0", "path": "codeless.py", "pad": 0, "kind": "partial", "text": k, "how": "func", "state": 0,
              "frozen": {"pos": [I(101)], "kw": []}}
-        fl = flavour if flavour != "mixed" else rng.choice(["modules", "methods", "nested", "keywords", "callables"])
+        # (callable instances live under another function id than partials -- 'module/unknown' vs
+        #  'functools/unknown' -- so they are not mixed with partials in one single-id model run)
+        fl = flavour if flavour != "mixed" else rng.choice(["modules", "methods", "nested", "keywords"])
         if fl == "modules":
             v.update(path="codeless_%d.py" % k, tag="vmod%d" % k)          # same qualname g, other module, other body
         elif fl == "methods":
